@@ -34,7 +34,7 @@ def run(tier, seed, replay=None):
     cov = {}
     sigs = set()
     samples = []
-    runs = [(0, False), (1, False), (2, False), (3, False), (2, True)]
+    runs = [(0, False), (1, False), (2, False), (3, False), (2, True), (-1, False)]  # -1: MaxSize = the largest int
     for i, (ms, lim) in enumerate(runs):
         tracef = os.path.join(sc, "batch_%d.ndjson" % i)
         args = ["c05", "-out", tracef, "-maxsize", ms, "-scenarios", nscn, "-seed", seed * 10 + i]
